@@ -55,6 +55,24 @@ func construct(role string) string {
 	return c
 }
 
+// digitsToN replaces every run of decimal digits by "N".
+func digitsToN(s string) string {
+	var sb strings.Builder
+	in := false
+	for _, r := range s {
+		if r >= '0' && r <= '9' {
+			if !in {
+				sb.WriteByte('N')
+			}
+			in = true
+			continue
+		}
+		in = false
+		sb.WriteRune(r)
+	}
+	return sb.String()
+}
+
 func keyField(key, name string) string {
 	for _, f := range strings.Split(key, "|") {
 		if strings.HasPrefix(f, name+"=") {
@@ -201,12 +219,31 @@ func classify(fs []*finding, partial bool, findingsFile string) []*finding {
 		}
 		add("base|"+sub, oracleRank[f.rc.Oracle], f, "")
 	}
+	// crash sites: numbers in a panic message (index, length) are part of the cause when they are the
+	// same for every failing source (parsePathExpr: always index 0 of length 0); when they vary with
+	// the input (an index that follows the source length) they are not, and are replaced by N
+	crashRaw := map[string]map[string]bool{}
+	for _, f := range fs {
+		if strings.HasPrefix(f.key, "crash|") {
+			n := digitsToN(f.key)
+			if crashRaw[n] == nil {
+				crashRaw[n] = map[string]bool{}
+			}
+			crashRaw[n][f.key] = true
+		}
+	}
 	for _, f := range fs {
 		p := strings.Split(f.key, "|")
 		switch p[0] {
 		case "base", "valid-rejected":
 		case "crash":
-			add(f.key, 1, f, "")
+			if n := digitsToN(f.key); len(crashRaw[n]) > 1 {
+				add(n, 1, f, "")
+			} else {
+				add(f.key, 1, f, "")
+			}
+		case "cause": // cause|<cause>|<oracle> (byte-level family, differential attribution, bytes.go)
+			add(p[1]+"|"+p[2], 25+oracleRank[p[2]], f, "")
 		case "values": // values|oracle|special@position
 			sp := strings.SplitN(p[2], "@", 2)
 			add("value-with-"+sp[0]+"|"+p[1], 5+oracleRank[p[1]], f, p[2])
